@@ -233,6 +233,13 @@ class WCH(WC):
         return hash((self.alphabet, len(self.patterns)))
 
 
+class WCHB(WCB):
+    """Byte-encoded keys AND colliding hashes."""
+
+    def __hash__(self) -> int:
+        return hash((self.alphabet, len(self.patterns)))
+
+
 # --------------------------------------------------------------------------
 # statistic transforms
 # --------------------------------------------------------------------------
@@ -1286,5 +1293,5 @@ def build_class(desc, compressed=False) -> WC:
 
         cls = {4: twin.WC, 5: twin.WCB}[mode]
     else:
-        cls = {0: WC, 1: WCB, 2: WCM, 3: WCH}[mode]
+        cls = {0: WC, 1: WCB, 2: WCM, 3: WCH, 6: WCHB}[mode]
     return cls.from_key(desc)
